@@ -516,11 +516,13 @@ def scalar_value(st, typ, req, key=False, maxlen=4):
 
 
 def draw_spec(draw, st, max_ents):
-    n = draw(st.integers(1, max_ents))
+    # (hypothesis favours the first elements of sampled_from and small integers: the interesting choices come first)
+    n = max_ents + 1 - draw(st.sampled_from([1, 1, 2, 2, 3, 4][:max_ents + 2 if max_ents < 4 else 6]))
+    n = max(1, min(max_ents, n))
     ents = []
     for i in range(n):
-        kinds = ['int', 'str', 'int_str', 'str_str', 'int_str', 'str_str']
-        if i > 0: kinds = ['int', 'str', 'int_str', 'str_str', 'ref', 'ref', 'ref_int', 'ref_str']
+        kinds = ['int_str', 'str_str', 'int_str', 'str_str', 'int', 'str']
+        if i > 0: kinds = ['ref', 'int_str', 'ref_int', 'str_str', 'ref', 'ref_str', 'int', 'str']
         pk = draw(st.sampled_from(kinds))
         pkref = draw(st.integers(0, i - 1)) if pk.startswith('ref') else None
         attrs = []
@@ -549,6 +551,8 @@ def _draw_pk(draw, st, M, ei, keylen, pool=None):
     for (name, typ) in PK_PARTS[e['pk']]:
         if typ == 'ref':
             targets = M.alive(e['pkref'])
+            if e['pk'] == 'ref':     # one-to-one key: only targets that are still free
+                targets = [t for t in targets if not M.pk_taken(ei, [t[1]])]
             if not targets: return None
             parts.append(targets[draw(st.integers(0, len(targets) - 1))][1])
         elif typ == 'int':
@@ -645,7 +649,7 @@ def draw_case(draw, st, size):
     objs = []
     for ei in range(len(spec['ents'])):
         lst = []
-        for _ in range(draw(st.integers(0, size['max_objs']))):
+        for _ in range(size['max_objs'] - draw(st.sampled_from([0, 0, 1, 1, 2, size['max_objs']]))):
             new = _draw_new_object(draw, st, M, ei, size['keylen'], False, pool)
             if new is None: continue
             pkparts, vals, refs = new
@@ -679,7 +683,7 @@ def draw_case(draw, st, size):
     case = {'spec': spec, 'objs': objs, 'm2m': m2m}
 
     mods = []
-    for _ in range(draw(st.integers(0, size['max_mods']))):
+    for _ in range(draw(st.sampled_from([2, 1, 0, 3, 0] + list(range(4, size['max_mods'] + 1))))):
         op = draw_op(draw, st, M, MOD_KINDS, size['keylen'], pool)
         if op is not None and M.apply(op): mods.append(op)
     case['mods'] = mods
@@ -691,7 +695,7 @@ def draw_case(draw, st, size):
         elif job[0] == 'list': roots.update(tuple(x) for x in job[1])
         elif job[0] == 'query': roots.update(M.alive(job[1]))
     between = []
-    for _ in range(draw(st.integers(0, 3))):
+    for _ in range(draw(st.sampled_from([2, 1, 3, 0, 0]))):
         op = draw_op(draw, st, M, BETWEEN_KINDS, size['keylen'], pool, prefer=roots)
         if op is not None and M.apply(op): between.append(op)
     case['between'] = between
